@@ -42,6 +42,7 @@ type dkgCase struct {
 	N           int    `json:"n"`
 	T           int    `json:"t"`
 	Tampered    int    `json:"tampered"` // 0: everybody honest; k: party k commits to and reveals a moved key
+	IDs         []int  `json:"ids"`      // participant identifiers in session order
 	Stuck       bool   `json:"stuck"`    // some KeyGen did not return (or panicked)
 	Accepted    []bool `json:"accepted"` // per party: KeyGen returned without error
 	CrossError  []bool `json:"cross_error"`
@@ -79,11 +80,15 @@ func moveKey(a *api, payload []byte) []byte {
 	return out
 }
 
-func runDKG(a *api, n, t, tampered int) dkgCase {
+func runDKG(a *api, n, t, tampered int, ids ...uint16) dkgCase {
 	res := dkgCase{Kind: "dkg", Pkg: a.name, N: n, T: t, Tampered: tampered, Accepted: make([]bool, n), CrossError: make([]bool, n)}
 	parties := make([]uint16, n)
 	for i := range parties {
 		parties[i] = uint16(i + 1)
+		if len(ids) == n {
+			parties[i] = ids[i] // identifiers that are not 1..n: shares are still evaluated at the rank i+1
+		}
+		res.IDs = append(res.IDs, int(parties[i]))
 	}
 	insts := make([]keygenParty, n)
 	for i := range insts {
@@ -283,6 +288,15 @@ func dkgCases(a *api, thorough bool) {
 			for k := 0; k <= n; k++ {
 				emit(runDKG(a, n, t, k))
 			}
+		}
+	}
+	// participant identifier sets that are not 1..n (bls: every >= t subset signs and verifies through bls.Verifier, which maps
+	// identifiers to ranks)
+	for _, ids := range [][]uint16{{1, 2, 4}, {2, 3, 5}, {1, 3, 4, 6}, {0, 1, 2}, {65533, 65534, 65535}} {
+		n := len(ids)
+		for t := 2; t <= n; t++ {
+			emit(runDKG(a, n, t, 0, ids...))
+			emit(runDKG(a, n, t, n, ids...))
 		}
 	}
 }
